@@ -146,6 +146,11 @@ fn check_node(built: Option<&Built>, run: &NodeRun, seed: u32, st: &mut Stats) -
                 continue;
             }
             let ptrs: Vec<usize> = in_place.iter().map(|(_, v)| data_ptr(v)).collect();
+            // Bit-equality can only be demanded when the operands have the same memory layout as in the
+            // normal run; for accumulating kernels (C14's class table) a non-contiguous owned operand may
+            // legitimately select another blocking path and hence another float association order.
+            let any_noncontig = in_place.iter().any(|(_, v)| !is_contiguous_value(v));
+            let mode = if any_noncontig { vc_ops::classes::layout_cmp(run.op) } else { FloatCmp::Bits };
             let owned_desc: Vec<String> = in_place
                 .iter()
                 .map(|(p, v)| format!("input {p}: shape {:?} contiguous={} ", v.shape().as_ref(), is_contiguous_value(v)))
@@ -185,10 +190,10 @@ fn check_node(built: Option<&Built>, run: &NodeRun, seed: u32, st: &mut Stats) -
             if outs.len() != base.len() {
                 return Err(Verdict::fail(format!("inplace:{}:count:{}", run.op, kind_tag), describe(&format!("{} outputs in place vs {} normally", outs.len(), base.len()))));
             }
-            if let Err((i, d)) = cmp_outputs(base, &outs, FloatCmp::Bits) {
+            if let Err((i, d)) = cmp_outputs(base, &outs, mode) {
                 return Err(Verdict::fail(
                     format!("inplace:{}:{}:{}", run.op, d.class(), kind_tag),
-                    describe(&format!("output {i} differs from the normal run: {} (normal vs in-place); in-place outputs [{}]", d.text(), outs.iter().map(show).collect::<Vec<_>>().join("; "))),
+                    describe(&format!("output {i} differs from the normal run ({mode:?}): {} (normal vs in-place); in-place outputs [{}]", d.text(), outs.iter().map(show).collect::<Vec<_>>().join("; "))),
                 ));
             }
             for (p, (a, b)) in inputs_before.iter().zip(run.inputs.iter()).enumerate() {
